@@ -18,27 +18,27 @@ CLAIMS = {}
 def claim(pid, text, ref, note="", category="model_checking", technique="bounded symbolic execution of the real code from go/ssa, SMT (z3) decides every branch and assertion; counterexamples replayed natively"):
     CLAIMS[pid] = dict(text=text, ref=ref, note=note, category=category, technique=technique)
 
-claim("C01", "For all strictly ascending key sets within the stated bounds (fully symbolic bytes 0x00-0xff, n<=3 keys of length <=2 in the quick tier; all option cases; nil/U16/String16 values) and for listed concrete skeleton key sets (257-bit root, short-node table, prefix keys, caterpillar) the solver shows Get/GetID return every retained key with its own value; bounded, not a proof.", "§7 C01")
-claim("C02", "RangeGet on every indexed key returns the value supplied for it, for all key sets/values within the L2 bounds (every run layout of equal adjacent values is a model of the symbolic values) and for the L3 skeletons with concrete run patterns.", "§7 C02")
+claim("C01", "For all strictly ascending key sets within the stated bounds (fully symbolic bytes 0x00-0xff, n<=3 keys of length <=2 in the quick tier; all option cases; nil/U16/String16 values) and for listed concrete skeleton key sets (257-bit root, short-node table, prefix keys, caterpillar) the solver shows Get/GetID return every retained key with its own value, also while a second unrelated trie is built afterwards, with values behind a *TypeEncoder over a struct, and with symbolic String16 values of symbolic lengths 0..4 on tiny concrete key sets; bounded, not a proof.", "§7 C01")
+claim("C02", "RangeGet on every indexed key returns the value supplied for it, for all key sets/values within the L2 bounds (every run layout of equal adjacent values is a model of the symbolic values) and for the L3 skeletons with concrete run patterns; variable-width values: tiny concrete key sets with symbolic String16 values of symbolic lengths 0..4, and lemma k_vlen over the leaf array.", "§7 C02")
 claim("C03", "On Complete tries, Get/GetID/RangeGet/Search agree with a linear-scan oracle for an arbitrary symbolic query string (all byte values decided by the solver) within the stated key-set and query-length bounds.", "§7 C03")
 claim("C09", "Search on every retained key returns exact neighbours in every option case, within the L2/L3 bounds.", "§7 C09")
-claim("C10", "No panic path is feasible in Get/GetID/RangeGet/Search for any symbolic query within bounds, in any mode; hits are mutually consistent and carry supplied values.", "§7 C10")
-claim("C14", "GetI8/16/32/64 return the same flag and number as Get for symbolic values over the full integer range and symbolic queries, within the L2/L3 bounds.", "§7 C14")
-claim("C15", "Every integer encoder is decided over its complete machine range (value symbolic, 2^8..2^64 values at once): LE layout, round trip, four sizes agree, with 0..2 junk bytes; String16/Bytes/Dummy for enumerated lengths with symbolic content. TypeEncoder layout is outside the claim (encoding/binary is reflection-driven).", "§7 C15")
-claim("C18", "Stat.KeyCnt equals the number of retained keys and the level table is consistent on every build path within the L2 bounds and on the L3 skeletons.", "§7 C18")
+claim("C10", "No panic path is feasible in Get/GetID/RangeGet/Search for any symbolic query within bounds, in any mode; hits are mutually consistent and carry supplied values (U16, nil, String16 incl. symbolic lengths 0..4 on concrete key sets, struct values behind a *TypeEncoder).", "§7 C10")
+claim("C14", "GetI8/16/32/64 return the same flag and number as Get for symbolic values over the full integer range and symbolic queries, within the L2/L3 bounds, also on an instance that answered queries for data A and was then loaded with data B by a direct Unmarshal.", "§7 C14")
+claim("C15", "Every integer encoder is decided over its complete machine range (value symbolic, 2^8..2^64 values at once): LE layout, round trip, four sizes agree, with 0..2 junk bytes; String16/Bytes/Dummy for enumerated lengths with symbolic content. TypeEncoder (harness k_enc_type): scalar, array, padded and nested struct types in both byte orders, also when an encoder of the other byte order was created first, over the encoding/binary layout model.", "§7 C15")
+claim("C18", "Stat.KeyCnt equals the number of retained keys and the level table is consistent on every build path within the L2 bounds and on the L3 skeletons, and for tries loaded from legacy streams written by the validated writer models (n<=2 symbolic, listed skeletons).", "§7 C18")
 
 claim("C04", "On Complete tries NewIter/ScanFrom/ScanFromTo with symbolic start/end strings, symbolic inclusivities and withValue yield exactly the t-th retained key in range with its encoded value and stay exhausted; decided for fully symbolic tries with n<=1, for n=2 over a 6-letter nibble-diverse alphabet (the scan code forks per label bit) and for listed skeleton tries; non-Complete tries must panic or still yield the right sequence.", "§7 C04")
 claim("C08", "Without the ascending assumption the solver shows NewSlimTrie rejects (ErrKeyOutOfOrder, nil trie) exactly the key lists with a non-ascending neighbour pair (n<=3 symbolic keys; a symbolic pair inside a 64-key list); decStep(encStep(s))=s for every step the builder accepts (full int32 range); shared runs around 65535 half-bytes are refused or fully indexed.", "§7 C08")
 claim("C13", "For one symbolic key/value list built in the four information levels, a hit in a mode storing more implies the same hit in every mode storing less; Complete is exact; retained keys answer identically; within the L2/L3 bounds.", "§7 C13")
 claim("C19", "String() never panics, renders one line per node and the retained (concrete) values in key order on every build path within the L2 bounds and on skeleton tries with short-node tables (sizes 2,3) and a 257-bit root. Exact label text and table sizes 4..10 are outside the claim.", "§7 C19")
 
-claim("C05", "Under assumption A-PB (protobuf modelled as an opaque injective codec over the message's proto3 normal form) Unmarshal(Marshal(t)) answers every query kind, scans and Stat identically for a symbolic query; re-marshalling and a second build give deep-equal messages under all map-iteration orders; sequences of Unmarshal/Reset leave no residue. Byte identity and the advertised size are facts about golang/protobuf's encoder: they are asserted on the natively replayed witnesses only.", "§7 C05", note="A-PB: proto.Marshal is a function of the message's proto3 normal form; Unmarshal(Marshal(m)) yields it in fresh memory.")
-claim("C07", "The 16 version bytes of the header are symbolic: for every version string up to the stated length the real ReadHeader/verStr/vers.IsCompatible/semver.Parse either reject with ErrIncompatible or the string is one of the six compatible versions (+build metadata); every strict prefix of a valid stream (real header bytes, opaque body) is rejected without panic and without handing the codec a partial body; after a rejected load a trie that held symbolic data answers as empty.", "§7 C07", note="Cuts inside real protobuf bodies are represented by opaque bodies (no body byte is read before the length check, which is what the harness decides).")
-claim("C11", "Sufficient condition decided with a write-set monitor: on every path of every read API (Get, GetID, RangeGet, Search, GetI32, Stat, ScanFrom, NewIter/next, String, Marshal down to the codec stub) with symbolic tries and queries no store hits an object reachable from the shared *SlimTrie that existed before the call, hence no data race and schedule-independent results; two interleaved iterators yield what each yields alone. A monitor finding is confirmed natively by running the call in two goroutines under go test -race before it is reported.", "§7 C11", note="Interleavings as such are not enumerated; golang/protobuf's Marshal (writes XXX_sizecache atomically) is trusted.", technique="bounded symbolic execution of the real code with a heap write-set monitor; SMT decides branches; findings confirmed with go test -race")
-claim("C20", "NewSlimTrie performs no store into the caller's key slice, value slice or option structs (monitor + equality, all 18 option cases incl. nil fields); Unmarshal performs no store into the input buffer, the loaded trie cannot reach it on the heap (codec stub aliasing pessimistically) and answers are unchanged after it is overwritten with symbolic bytes; Marshal output is unreachable from the trie and overwriting it changes nothing.", "§7 C20", note="A-PB: proto.Marshal returns fresh memory.")
+claim("C05", "Under assumption A-PB (protobuf modelled as an opaque injective codec over the message's proto3 normal form) Unmarshal(Marshal(t)) answers every query kind, scans and Stat identically for a symbolic query; re-marshalling and a second build give deep-equal messages under all map-iteration orders; sequences of Unmarshal/Reset on one instance (with Marshal, String and queries in between) leave no residue, and re-marshalling the reused instance reproduces what it holds now. Byte identity and the advertised size are facts about golang/protobuf's encoder: they are asserted on the natively replayed witnesses only.", "§7 C05", note="A-PB: proto.Marshal is a function of the message's proto3 normal form; Unmarshal(Marshal(m)) yields it in fresh memory.")
+claim("C07", "The 16 version bytes of the header are symbolic: for every version string up to the stated length the real ReadHeader/verStr/vers.IsCompatible/semver.Parse either reject with ErrIncompatible or the string is one of the six compatible versions (+build metadata), free strings up to 6 bytes and symbolic continuations of the prefixes 0.5. / 0.5.1 / 1.0. / 0.5.9 / 0.5.12; every strict prefix of a valid stream (real header bytes, opaque body) is rejected without panic and without handing the codec a partial body; after a rejected load a trie that held symbolic data answers as empty.", "§7 C07", note="Cuts inside real protobuf bodies are represented by opaque bodies (no body byte is read before the length check, which is what the harness decides).")
+claim("C11", "Sufficient condition decided with a write-set monitor: on every path of every read API (Get, GetID, RangeGet, Search, GetI32, Stat, ScanFrom, NewIter/next, String, Marshal down to the codec stub) with symbolic tries and queries no store hits an object reachable from the shared *SlimTrie that existed before the call, hence no data race and schedule-independent results; two interleaved iterators yield what each yields alone; value encoders U16, I32, String16 and a *TypeEncoder over a struct (the encoder object is part of the monitored state). A monitor finding is confirmed natively by running the call in two goroutines under go test -race before it is reported.", "§7 C11", note="Interleavings as such are not enumerated; golang/protobuf's Marshal (writes XXX_sizecache atomically) is trusted.", technique="bounded symbolic execution of the real code with a heap write-set monitor; SMT decides branches; findings confirmed with go test -race")
+claim("C20", "NewSlimTrie performs no store into the caller's key slice, value slice or option structs (monitor + equality, all 18 option cases incl. nil fields); Unmarshal performs no store into the input buffer, the loaded trie cannot reach it on the heap (codec stub aliasing pessimistically) and answers are unchanged after it is overwritten with symbolic bytes; Marshal output is unreachable from the trie and overwriting it changes nothing (two live outputs are disjoint); caller-owned []byte values (encode.Bytes) are unreachable from the built trie and overwriting them changes no answer.", "§7 C20", note="A-PB: proto.Marshal returns fresh memory.")
 
-claim("C12", "Symbolic records (keys, int64 offsets) indexed by the real NewSlimIndex with a key-verifying reader: Get (strictly increasing offsets) and RangeGet (non-decreasing block offsets, every block structure a model) return the stored record exactly for indexed keys and not-found for every other symbolic query, within n<=3 (quick).", "§7 C12")
-claim("C16", "Typed arrays built by the real constructors from symbolic ascending indexes (enumerated word, symbolic bit) and symbolic elements over the full element range answer typed Get / raw GetBytes / generic Array.Get as a sparse map for a symbolic probe inside the bitmap span, also after a round trip through the codec stub (A-PB) into the typed and the generic type; invalid index lists are rejected with their dedicated errors and build nothing.", "§7 C16", note="encoding/binary Read/Write/Size are modelled (layout from go/types): generic decoding rests on that model.")
+claim("C12", "Symbolic records (keys, int64 offsets) indexed by the real NewSlimIndex with a key-verifying reader: Get (strictly increasing offsets) and RangeGet (non-decreasing block offsets, every block structure a model) return the stored record exactly for indexed keys and not-found for every other symbolic query, within n<=3 (quick), on listed concrete key sets with block sizes 1..64, and also after a second unrelated index has been built.", "§7 C12")
+claim("C16", "Typed arrays built by the real constructors from symbolic ascending indexes (enumerated word, symbolic bit) and symbolic elements over the full element range answer typed Get / raw GetBytes / generic Array.Get as a sparse map for a symbolic probe inside the bitmap span, also after a round trip through the codec stub (A-PB) into the typed and the generic type, incl. struct elements with alignment padding through New and NewEmpty+load; invalid index lists are rejected with their dedicated errors and build nothing.", "§7 C16", note="encoding/binary Read/Write/Size are modelled (layout from go/types): generic decoding rests on that model.")
 claim("C17", "Relational size check only (level other): see evidence coverage.explanation. The 8n+256 bound for large n and the exact serialized size are outside what a solver-based check of this code can reach.", "§7 C17", category="other", technique="bounded symbolic execution of the real builder; a structural size measure compared by the solver; real sizes on native replays")
 
 claim("C06", "No old writer exists; two writer models (DESIGN Appendix G) are validated natively against all 97 archived fixtures at setup (assumption A-LW) and then executed symbolically: a symbolic key set is written in every pre-0.5.10 layout variant (u32 children with symbolic upper halves, 16-bit bitmap children, extended bitmaps, steps on leaves; headers 1.0.0/0.5.8/0.5.9) or rewritten into the 0.5.10/0.5.11 layout (nopref/innpref/allpref), loaded by the real Unmarshal (version dispatch and all converters) and must answer Get/RangeGet/Search for every key, exact absent-key answers and scans for allpref, also after the buffer is overwritten.", "§7 C06", note="A-LW: the historical writers produced, for any key set, what the two models produce (checked on every archived sample, unverifiable beyond them). A-PB for the opaque bodies. >65535 nodes and steps >255 nibbles with symbolic content are outside the bounds.")
